@@ -539,6 +539,24 @@ PROPS['C13']['rule'] = PROPS['C13']['rule'] + ' || ' + _PACKED_RULE
 PROPS['C12']['suites'] = PROPS['C12']['suites'] + [_CHUNK_SUITE]
 PROPS['C12']['rule'] = PROPS['C12']['rule'] + ' || chunk suite (RawMessage.Chunk / GetChunk against the option map the specification parser finds)'
 
+# C10, memory clause: allocation model + partial theorems + witnesses; the translator lists the count-sized make sites
+PROPS['C10']['translator'] = True
+PROPS['C10']['lean_modules'] = PROPS['C10']['lean_modules'] + ['FluentVerif.Tie.Alloc']
+PROPS['C10']['theorems'] = PROPS['C10']['theorems'] + [
+    'FV.C10_alloc_Message_partial', 'FV.C10_alloc_MessageExt_partial', 'FV.C10_alloc_Forward_partial', 'FV.C10_alloc_Entry_partial',
+    'FV.C10_alloc_EntryExt_partial', 'FV.C10_alloc_EntryList_partial', 'FV.C10_alloc_unmarshalPacked_partial',
+    'FV.C10_alloc_witness_Message', 'FV.C10_alloc_witness_Forward', 'FV.C10_alloc_full_false', 'FV.allocIntf_le', 'FV.allocIntf_bomb',
+    'FV.Tie.count_sized_makes']
+PROPS['C10']['explanation'] = PROPS['C10']['explanation'] + (
+    " Memory clause: T.alloc b (Proto/Alloc.lean) counts the elements the slice decoder of T requests through count-sized make calls "
+    "(msgp ReadIntfBytes arrays and maps, make(EntryList, n)); the clause at full strength is false of model and code "
+    "(C10_alloc_full_false, C10_alloc_witness_*: open finding C10-count-driven-allocation); proved instead, C10_alloc_T_partial: on every "
+    "accepted input the elements requested are at most the bytes consumed. Tie: the translator lists the make calls of fluent/protocol whose "
+    "size is not a constant or a len(…) (Tie.count_sized_makes pins the two generated EntryList sites); the harness reports the heap bytes "
+    "each slice-path decode requested (runtime/metrics around UnmarshalMsg; child process under an address-space limit for inputs declaring "
+    "huge counts or lengths) and the driver accepts them when within 64·len + 4 MiB, files them under the open finding when within 128 bytes "
+    "per element the model says were requested, and reports anything beyond as `C10 alloc-unexplained` (a violation).")
+
 # C10 names EventTime decoding among the entry points: the et suite's decode half (payloads of every length 0..19)
 PROPS['C10']['suites'] = PROPS['C10']['suites'] + [PROPS['C19']['suites'][0]]
 PROPS['C10']['rule'] = PROPS['C10']['rule'] + ' || et suite (EventTime.UnmarshalBinary on payloads of 0..19 bytes)'
